@@ -78,7 +78,7 @@ pub fn dispatch(op: &str, toks: &[&str]) -> String {
     match op {
         "kf" => return kf::dispatch(toks[0]),
         "libcorpus" => return libcorpus::corpus().join(" | "),
-        "crypto_frames" | "crypto_big_tamper" | "crypto_serve" | "crypto_tail_search" => return crypto_ops::dispatch(op, toks),
+        "crypto_frames" | "crypto_big_tamper" | "crypto_serve" | "crypto_tail_search" | "crypto_stream_cuts" => return crypto_ops::dispatch(op, toks),
         "probe_item" => return gen::item_probe(toks[0].parse().unwrap()),
         "probe_tuple" => return gen::tuple_probe(toks[0].parse().unwrap()),
         "probe_variant" => return gen::variant_probe(toks[0].parse().unwrap(), toks[1].parse().unwrap()),
